@@ -169,19 +169,21 @@ def check_model(spec):
                     bad = abs(got - pv) > 1e-9 * max(1.0, float(rp.cv[c][ti]), abs(pv))
                 if bad:
                     raise Violation(ID, "state-update/%s" % type(c).__name__, "%s/%s index %d->%d: recorded %r, stock+in-out gives %r" % (c.pop.name, c.name, ti, ti + 1, np.asarray(got).tolist(), np.asarray(pv).tolist()))
-    free_labels, inconclusive = free_run(spec, res, rp) if "lib" not in spec else (["free:not-run(library model)"], {})
+    free_labels, inconclusive = free_run(spec, res, rp, b.get("preflush")) if "lib" not in spec else (["free:not-run(library model)"], {})
     base_units = {u.rstrip("*") for u in units}
     nontrivial = len(base_units) >= 3 and any(u.endswith("*") for u in units)
     return {"nontrivial": nontrivial, "labels": ["kind:model"] + simcase.labels_of(spec) + ["unit:" + u for u in sorted(units)] + free_labels, "inconclusive": inconclusive}
 
 
-def free_run(spec, res, rp):
+def free_run(spec, res, rp, preflush=None):
     """free run of the reference simulator from the same INPUTS; all trajectories rtol 1e-8 (relative to the population's largest stock)"""
     from vlib import refsim, canon
 
     try:
         sim = refsim.RefSim(spec)
-        ref = sim.run()
+        # with a characteristic among the initialisation quantities the initial state is the solution of a linear system, which atomica
+        # reproduces to its absolute tolerance of 1e-6 only (C07 decides that): the free run then starts from atomica's pre-flush state
+        ref = sim.run(initial=preflush if (spec.get("indirect_init") and preflush) else None)
     except refsim.Unsupported as e:
         return ["free:unsupported(%s)" % e], {}
     got = canon.result_arrays(res)
